@@ -76,6 +76,18 @@ type vfoScn struct {
 	Lone     bool
 	LoneLast bool   // it is the last command of the stream: nothing routable ever joins it in the queue
 	CrossCmd string // del | unlink | mset | smove: the multi-key command over two nodes
+	// session 5, dimension audit
+	Dim       string // the drawn dimension (counter dim_<…>)
+	FaultNode int    // > 0: the injected fault hits node FaultNode-1 only (0: whichever node serves request FaultAt)
+	Layout    int    // nodes that own slots (0 = 3); the double has Nodes nodes, the others own nothing
+	Nodes     int    // nodes of the double (0 = 3); a node beyond Layout is unknown to the client until a slot is moved to it
+}
+
+func (scn *vfoScn) layout() int {
+	if scn.Layout > 0 {
+		return scn.Layout
+	}
+	return 3
 }
 
 // pipelined: does the sender run pipelined? Transactional replay to a cluster with resuming from the
@@ -209,16 +221,22 @@ func (b *vfoObsBatcher) Receive() ([]interface{}, error) {
 }
 
 func vfoRun(scn *vfoScn) (*vfoResult, error) {
-	d, err := vfdoubles.NewCluster(3, scn.Keys)
+	nNodes := 3
+	if scn.Nodes > 0 {
+		nNodes = scn.Nodes
+	}
+	d, err := vfdoubles.NewCluster(nNodes, scn.Keys)
 	if err != nil {
 		return nil, err
 	}
 	defer d.Close()
-	d.SetBaseLayout(3)
+	d.SetBaseLayout(scn.layout())
 	// serve the client's initial CLUSTER SLOTS, park every later (asynchronous)
 	// refresh: the client's map stays what it read at start, so redirects are
 	// always needed once a slot has moved (and D22 cannot interfere)
-	if !scn.CpRetry {
+	if !scn.CpRetry && scn.Dim != "unknown" {
+		// (a MOVED to a node the client does not know makes it refresh SYNCHRONOUSLY inside handleMove: the gate would
+		// park that request - the client sets no read timeout - so the refreshes run free in that dimension)
 		d.EnablePark(1)
 	}
 	sc := append([]vfdoubles.Sched(nil), scn.During...)
@@ -237,7 +255,7 @@ func vfoRun(scn *vfoScn) (*vfoResult, error) {
 	}
 	sc = append(sc, scn.Extra...)
 	if scn.Fault != "" {
-		fn := 0
+		fn := scn.FaultNode
 		if scn.CpBatch {
 			fn = scn.StallNode + 1 // the fault hits the data node, not the checkpoint node
 		}
@@ -270,7 +288,7 @@ func vfoRun(scn *vfoScn) (*vfoResult, error) {
 	}
 	cfg.Redis.Type = config.RedisTypeCluster
 	cfg.Redis.Otype = config.RedisTypeCluster
-	cfg.Redis.Addresses = config.SliceString(d.Addrs())
+	cfg.Redis.Addresses = config.SliceString(d.Addrs()[:scn.layout()]) // a node that owns nothing is not a start node
 	cfg.Redis.ClusterOptions = &config.RedisClusterOptions{HandleMoveErr: !scn.NoFollow, HandleAskErr: !scn.NoFollow}
 	ro := NewRedisOutput(cfg) // transactional + cluster: switches redirect following off
 	cpStored := func() bool {
@@ -784,6 +802,20 @@ func vfoMonitor1(scn *vfoScn, res *vfoResult) []vfoViol {
 	if res.Stalled {
 		out = append(out, vfoViol{"sender-stalled", fmt.Sprintf("sendAof neither finished the stream nor returned (err=%v)", res.Err), ""})
 	}
+	// session 5 (dimension audit, the `final=other` flake): sendAof returns nil ONLY for ... nothing - the end of the input is
+	// an EOF error, a close from outside the context's error. A nil after a batch has ended with an error (seen by Exec, by
+	// Dispatch or by the pipelined receiver) is a failed batch that was never reported: the caller takes the run for done.
+	if res.Err == nil && !res.Stalled && !scn.CloseOutside {
+		lastE := ""
+		for _, ev := range res.Trace {
+			if strings.HasPrefix(ev, "E:") {
+				lastE = ev
+			}
+		}
+		if p := strings.Split(lastE, ":"); len(p) == 3 && p[2] != "ok" {
+			out = append(out, vfoViol{"failed-batch-not-reported", fmt.Sprintf("sendAof returned nil although batch %s ended with an error (%s): the error the run was closed with was not yet recorded when it was read (pkg/sync waitCloser.Close published `closed` before the error)", p[1], p[2]), ""})
+		}
+	}
 	return out
 }
 
@@ -948,6 +980,9 @@ func vfoMonitor(scn *vfoScn, res *vfoResult) []vfoViol {
 // here from the same observations.
 func vfoExecOp(tag string, scn *vfoScn, res *vfoResult) (string, []string, string) {
 	split := 1
+	if scn.layout() != 3 || scn.Nodes > 3 {
+		return "", nil, "layout"
+	}
 	if scn.Lone {
 		return "", nil, "lone-refused" // no attempt reaches a node: Model/ClusterFlush.lean (op c19f), not ClusterExec
 	}
@@ -1288,7 +1323,198 @@ func vfoTagsOnNode(node int, n int, salt string) []string {
 	return out
 }
 
+// vfoTagsOn: hash tags whose slot lives on `node` of an m-node base layout
+func vfoTagsOn(node, m, n int, salt string) []string {
+	var out []string
+	for i := 0; len(out) < n && i < 100000; i++ {
+		t := fmt.Sprintf("o%d%s", i, salt)
+		if vfdoubles.ClusterSlot("{"+t+"}")*m/16384 == node {
+			out = append(out, t)
+		}
+	}
+	return out
+}
+
+// vfoDim: the dimensions of the session-5 audit, one forced scenario each (self-contained, not the generic generator):
+//
+//	cut:<txn|plain>-<block|pipe>:<resume|mem>:<data|cp|same>:<cb|ac>:<at>   the connection of the data node / of the
+//	      checkpoint key's node (data elsewhere / data on it too) is cut before / after request <at> is applied
+//	size:<mode>:<resume|mem>:<n>:<bc>      a stream of exactly n commands with BatchCmdCount bc (1, bc, bc+1), one slot moves
+//	oneslot:<mode>:<resume|mem>            every key carries ONE hash tag (one slot); the slot migrates during the stream
+//	unknown:<mode>:<resume|mem>            a fourth node that owns nothing (unknown to the client); a slot is assigned to it
+//	nodes:<1|2>:<mode>:<resume|mem>        clusters of one and two nodes
+func vfoDim(r *vfutil.Rand, name string, force string) *vfoScn {
+	f := strings.Split(force, ":")
+	scn := &vfoScn{Name: name, Dim: f[0], BC: 3}
+	mode := f[1]
+	if f[0] == "nodes" {
+		mode = f[2]
+	}
+	scn.Txn, scn.Pipeline = strings.HasPrefix(mode, "txn"), strings.HasSuffix(mode, "pipe")
+	for _, x := range f {
+		if x == "resume" {
+			scn.Resume = true
+		}
+	}
+	m := 3
+	cpNode := func() int { return vfdoubles.ClusterSlot("vfcp") * m / 16384 }
+	addKeys := func(node, tags, per int, salt string) [][]int {
+		var out [][]int
+		for _, tg := range vfoTagsOn(node, m, tags, name+salt) {
+			var ks []int
+			for j := 0; j < per; j++ {
+				ks = append(ks, len(scn.Keys))
+				scn.Keys = append(scn.Keys, fmt.Sprintf("k%d{%s}", j, tg))
+			}
+			out = append(out, ks)
+		}
+		return out
+	}
+	stream := func(n int, groups [][]int) {
+		for i := 0; i < n; i++ {
+			g := groups[r.Intn(len(groups))]
+			scn.Cmds = append(scn.Cmds, vfoCmd{ID: i + 1, Key: vfutil.Pick(r, g)})
+		}
+	}
+	move := func(key int, at int, dst int) {
+		slot := vfdoubles.ClusterSlot(scn.Keys[key])
+		if !scn.Txn && r.Bool() && dst < m {
+			scn.During = append(scn.During, vfdoubles.Sched{At: at, Ev: vfdoubles.MigEv{Kind: "g", Slot: slot, Dst: dst}},
+				vfdoubles.Sched{At: at + 1, Ev: vfdoubles.MigEv{Kind: "k", Key: scn.Keys[key]}},
+				vfdoubles.Sched{At: at + 3, Ev: vfdoubles.MigEv{Kind: "f", Slot: slot}})
+		} else {
+			scn.During = append(scn.During, vfdoubles.Sched{At: at, Ev: vfdoubles.MigEv{Kind: "v", Slot: slot, Dst: dst}})
+		}
+	}
+	switch f[0] {
+	case "cut":
+		var at int
+		fmt.Sscan(f[5], &at)
+		scn.Fault, scn.FaultAt = f[4], at
+		dn := (cpNode() + 1) % 3
+		if f[3] == "same" {
+			dn = cpNode()
+		}
+		var groups [][]int
+		if scn.Txn || f[3] == "same" {
+			groups = addKeys(dn, 2, 2, "")
+		} else {
+			groups = append(addKeys(dn, 1, 2, ""), addKeys((cpNode()+2)%3, 1, 2, "b")...) // plain: two data nodes
+		}
+		// long enough that commands remain unsent when the run stops, and the input stays open until the run has
+		// returned by itself: the final error class is read off a run that ended because of the cut
+		stream(24, groups)
+		scn.SelfEnd = true
+		scn.FaultNode = dn + 1
+		if f[3] == "cp" {
+			scn.FaultNode = cpNode() + 1
+		}
+	case "size":
+		var n, bc int
+		fmt.Sscan(f[3], &n)
+		fmt.Sscan(f[4], &bc)
+		scn.BC = bc
+		var groups [][]int
+		if scn.Txn {
+			groups = addKeys(r.Intn(3), 2, 1, "")
+		} else {
+			groups = append(addKeys(0, 1, 1, ""), append(addKeys(1, 1, 1, "b"), addKeys(2, 1, 1, "c")...)...)
+		}
+		stream(n, groups)
+		own := vfdoubles.ClusterSlot(scn.Keys[scn.Cmds[0].Key]) * 3 / 16384
+		move(scn.Cmds[0].Key, r.Intn(n), (own+1+r.Intn(2))%3)
+	case "oneslot":
+		groups := addKeys(r.Intn(3), 1, 3, "") // three keys, ONE hash tag
+		stream(r.Range(6, 10), groups)
+		own := vfdoubles.ClusterSlot(scn.Keys[0]) * 3 / 16384
+		move(0, r.Intn(4), (own+1+r.Intn(2))%3)
+	case "unknown":
+		scn.Nodes = 4
+		var groups [][]int
+		if scn.Txn {
+			groups = addKeys(r.Intn(3), 2, 1, "")
+		} else {
+			groups = append(addKeys(0, 1, 2, ""), addKeys(1, 1, 1, "b")...)
+		}
+		stream(r.Range(5, 9), groups)
+		scn.During = append(scn.During, vfdoubles.Sched{At: r.Intn(4), Ev: vfdoubles.MigEv{Kind: "v", Slot: vfdoubles.ClusterSlot(scn.Keys[0]), Dst: 3}})
+	case "cpdown":
+		// the checkpoint key's node goes DOWN alone (listener and connections closed), the data lives on the other nodes
+		scn.Resume = true
+		var groups [][]int
+		if scn.Txn {
+			groups = addKeys((cpNode()+1)%3, 2, 2, "")
+		} else {
+			groups = append(addKeys((cpNode()+1)%3, 1, 2, ""), addKeys((cpNode()+2)%3, 1, 2, "b")...)
+		}
+		stream(24, groups)
+		scn.SelfEnd = true
+		scn.During = append(scn.During, vfdoubles.Sched{At: r.Range(1, 6), Ev: vfdoubles.MigEv{Kind: "x", Dst: cpNode()}})
+	case "hole":
+		// a hole in the slot map: the slot of one key becomes unassigned during the stream (-CLUSTERDOWN from every node)
+		var groups [][]int
+		if scn.Txn {
+			groups = addKeys(r.Intn(3), 2, 1, "")
+		} else {
+			groups = append(addKeys(0, 1, 1, ""), addKeys(1, 1, 1, "b")...)
+		}
+		stream(24, groups)
+		scn.SelfEnd = true
+		scn.Cmds[5].Key = 0
+		scn.During = append(scn.During, vfdoubles.Sched{At: r.Range(1, 4), Ev: vfdoubles.MigEv{Kind: "h", Slot: vfdoubles.ClusterSlot(scn.Keys[0])}})
+	case "nodes":
+		fmt.Sscan(f[1], &m)
+		scn.Layout, scn.Nodes = m, m
+		var groups [][]int
+		for nd := 0; nd < m; nd++ {
+			if scn.Txn && nd > 0 {
+				break
+			}
+			groups = append(groups, addKeys(nd, 1, 2, fmt.Sprint("n", nd))...)
+		}
+		stream(r.Range(4, 8), groups)
+		if m == 2 {
+			own := vfdoubles.ClusterSlot(scn.Keys[0]) * 2 / 16384
+			scn.During = append(scn.During, vfdoubles.Sched{At: r.Intn(3), Ev: vfdoubles.MigEv{Kind: "v", Slot: vfdoubles.ClusterSlot(scn.Keys[0]), Dst: 1 - own}})
+		}
+	}
+	return scn
+}
+
+// vfoDimList: every combination of the audit's dimensions (thorough tier runs all, quick a seeded sample)
+func vfoDimList() []string {
+	var out []string
+	modes := []string{"plain-block", "plain-pipe", "txn-block", "txn-pipe"}
+	for _, md := range modes {
+		for _, rs := range []string{"resume", "mem"} {
+			for _, nk := range []string{"data", "cp", "same"} {
+				if nk == "cp" && rs == "mem" {
+					continue // no position is written to the checkpoint key's node
+				}
+				for _, ft := range []string{"cb", "ac"} {
+					for at := 0; at <= 8; at++ {
+						out = append(out, fmt.Sprintf("cut:%s:%s:%s:%s:%d", md, rs, nk, ft, at))
+					}
+				}
+			}
+			for _, sz := range [][2]int{{1, 1}, {1, 3}, {3, 3}, {4, 3}, {2, 1}, {6, 3}, {7, 3}} {
+				out = append(out, fmt.Sprintf("size:%s:%s:%d:%d", md, rs, sz[0], sz[1]))
+			}
+			out = append(out, fmt.Sprintf("hole:%s:%s", md, rs))
+			if rs == "resume" {
+				out = append(out, fmt.Sprintf("cpdown:%s:%s", md, rs))
+			}
+			out = append(out, fmt.Sprintf("oneslot:%s:%s", md, rs), fmt.Sprintf("unknown:%s:%s", md, rs),
+				fmt.Sprintf("nodes:1:%s:%s", md, rs), fmt.Sprintf("nodes:2:%s:%s", md, rs))
+		}
+	}
+	return out
+}
+
 func vfoGen(r *vfutil.Rand, name string, force string) *vfoScn {
+	if i := strings.Index(force, ":"); i > 0 && force[:i] != "lone-cross" {
+		return vfoDim(r, name, force)
+	}
 	scn := &vfoScn{Name: name, BC: r.Range(1, 5)}
 	switch force {
 	case "txn-block-resume":
@@ -1574,7 +1800,10 @@ func vfoGen(r *vfutil.Rand, name string, force string) *vfoScn {
 
 func vfoOne(t *testing.T, s *vfutil.Session, idx int, scn *vfoScn) (nops int) {
 	nops = 1
-	tag := fmt.Sprintf("#%d", idx)
+	// the tag is the scenario's NAME (stable across runs: the number of ops a scenario yields depends on its outcome, so
+	// an op index does not identify it); VERIF_C19_DUMP=<tag> prints the scenario, VERIF_C19_ONLY=<name> runs it alone
+	tag := "#" + scn.Name
+	_ = idx
 	res, err := vfoRun(scn)
 	if err != nil {
 		s.Count("run_error")
@@ -1623,6 +1852,12 @@ func vfoOne(t *testing.T, s *vfutil.Session, idx int, scn *vfoScn) (nops int) {
 		cls, pers = "redirect", "once"
 	case faulted:
 		cls, pers = "other", "once"
+		if scn.pipelined() {
+			path = "recv"
+		}
+	case scn.Dim == "cpdown" || scn.Dim == "hole":
+		// a node that stays down / a slot that stays unassigned: every attempt fails with an ordinary error
+		cls = "other"
 		if scn.pipelined() {
 			path = "recv"
 		}
@@ -1733,13 +1968,22 @@ func vfoOne(t *testing.T, s *vfutil.Session, idx int, scn *vfoScn) (nops int) {
 	if res.ZExec >= 0 {
 		final1 = res.Final1
 	}
+	if scn.Txn && cls == "redirect" && final1 != "typology" && !res.Stalled {
+		// transactional cluster output: a redirect must end the run with ErrRedisTypologyChanged whoever sees it
+		// (sendFunc / handleError -> handleDirectError); keep what is needed to look at a run that did not
+		if f, e := os.OpenFile(vfutil.OutDir()+"/C19out.anomalies.txt", os.O_APPEND|os.O_CREATE|os.O_WRONLY, 0o644); e == nil {
+			fmt.Fprintf(f, "%s final=%s path=%s err=%v\n  scenario=%+v\n  trace=%s\n", tag, final1, path, res.Err, *scn, strings.Join(res.Trace, " "))
+			f.Close()
+		}
+		s.Count("anomaly_txn_redirect_not_typology")
+	}
 	if os.Getenv("VERIF_C19_DUMP") == tag {
 		fmt.Printf("VFDUMP %s scenario=%+v\n  err=%v final=%s cls=%s path=%s\n  trace=%s\n", tag, *scn, res.Err, res.Final, cls, path, strings.Join(res.Trace, " "))
 	}
 	s.Op(fmt.Sprintf("c19o %s %d %d %s %s %s", tag, vfoB2i(scn.Txn), vfoB2i(scn.pipelined()), cls, path, pers),
 		fmt.Sprintf("%s resends=%d final=%s", tag, resends, final1))
 	nops = 1
-	if xop, xlines, why := vfoExecOp(fmt.Sprintf("#%d", idx+nops), scn, res); xop != "" {
+	if xop, xlines, why := vfoExecOp(tag+".x", scn, res); xop != "" {
 		s.Op(xop, xlines...)
 		nops++
 		s.Count("exec_model_traces")
@@ -1758,7 +2002,7 @@ func vfoOne(t *testing.T, s *vfutil.Session, idx int, scn *vfoScn) (nops int) {
 		s.Count("exec_model_skipped_" + why)
 	}
 	if putErrOp != "" {
-		t2 := fmt.Sprintf("#%d", idx+nops)
+		t2 := tag + ".s"
 		s.Op(fmt.Sprintf(putErrOp, t2), fmt.Sprintf(putErrLine, t2))
 		nops++
 		s.Count("puterr_traces")
@@ -1773,6 +2017,26 @@ func vfoOne(t *testing.T, s *vfutil.Session, idx int, scn *vfoScn) (nops int) {
 		mode += "_block"
 	}
 	s.Count("mode_" + mode)
+	if scn.Dim != "" {
+		s.Count("dim_" + scn.Dim)
+		if scn.Dim == "cut" {
+			s.Count(fmt.Sprintf("dim_cut_at_%d", scn.FaultAt))
+			s.Count("dim_cut_" + scn.Fault + "_" + map[bool]string{true: "fired", false: "not-reached"}[faulted])
+		}
+	}
+	// configuration options that reach the sender / the cluster client, by value (dimension audit)
+	s.Count(fmt.Sprintf("cfg_enableTransaction_%v", scn.Txn))
+	s.Count(fmt.Sprintf("cfg_replayMode_pipeline_%v", scn.Pipeline))
+	s.Count(fmt.Sprintf("cfg_pipeline_effective_%v", scn.pipelined()))
+	s.Count(fmt.Sprintf("cfg_resumeFromBreakPoint_%v", scn.Resume || scn.CpRetry))
+	s.Count(fmt.Sprintf("cfg_handleMoveAskErr_%v", !scn.NoFollow && !scn.Txn))
+	if scn.BC >= 6 {
+		s.Count("cfg_batchCmdCount_many")
+	} else {
+		s.Count(fmt.Sprintf("cfg_batchCmdCount_%d", scn.BC))
+	}
+	s.Count(fmt.Sprintf("cfg_flushBy_%s", map[bool]string{true: "checkpointTicker", false: "count+batchTicker"}[scn.CpBatch || scn.CpRetry || scn.CpMoved]))
+	s.Count(fmt.Sprintf("cfg_nodes_%d_of_%d", scn.layout(), map[bool]int{true: scn.Nodes, false: 3}[scn.Nodes > 0]))
 	s.Count("final_" + res.Final)
 	s.Count("class_" + cls)
 	if scn.Fault != "" {
@@ -1822,13 +2086,47 @@ func TestVerifC19Out(t *testing.T) {
 	if only := os.Getenv("VERIF_C19_ONLY"); only != "" {
 		forced = []string{only}
 	}
-	for _, f := range forced {
-		idx += vfoOne(t, s, idx, vfoGen(r.Fork(), fmt.Sprintf("f%d", idx), f))
+	for fi, f := range forced {
+		idx += vfoOne(t, s, idx, vfoGen(r.Fork(), fmt.Sprintf("f%d", fi), f))
 	}
 	{
 		// repaired defect (94a8b6c): the checkpoint run-id fields were lost when the first checkpoint
 		// flush of a run was re-sent after a failed redirect (monitor checkpoint-offset-without-runid)
-		idx += vfoOne(t, s, idx, vfoGen(r.Fork(), fmt.Sprintf("f%d", idx), "cp-retry"))
+		idx += vfoOne(t, s, idx, vfoGen(r.Fork(), "fcpretry", "cp-retry"))
+	}
+	if os.Getenv("VERIF_C19_ONLY") == "" {
+		// session 5, dimension audit: connection cut at every request index x node x mode x resume; exact batch sizes; one
+		// slot for every key; a node the client does not know; clusters of one and two nodes
+		dims := vfoDimList()
+		rd := vfutil.NewRand(vfutil.Seed() + 4242)
+		// quick: 30 of the non-cut dimensions and 40 cuts, drawn without repetition; thorough: all
+		var pick []int
+		if vfutil.Tier() == "thorough" {
+			for j := range dims {
+				pick = append(pick, j)
+			}
+		} else {
+			var cuts, others []int
+			for j, dm := range dims {
+				if strings.HasPrefix(dm, "cut:") {
+					cuts = append(cuts, j)
+				} else {
+					others = append(others, j)
+				}
+			}
+			shuffle := func(a []int) {
+				for i := len(a) - 1; i > 0; i-- {
+					j := rd.Intn(i + 1)
+					a[i], a[j] = a[j], a[i]
+				}
+			}
+			shuffle(cuts)
+			shuffle(others)
+			pick = append(append(pick, others[:30]...), cuts[:40]...)
+		}
+		for _, di := range pick {
+			idx += vfoOne(t, s, idx, vfoGen(rd.Fork(), fmt.Sprintf("d%d", di), dims[di]))
+		}
 	}
 	n := vfutil.Scale(60, 4000)
 	for i := 0; i < n; i++ {
